@@ -100,6 +100,8 @@ pub mod params;
 pub mod peer;
 pub mod signature;
 pub mod standard_messages;
+#[cfg(feature = "verif_hooks")]
+pub mod verif_hooks;
 pub mod wire;
 
 // reexport derive macros
